@@ -413,7 +413,30 @@ def gen_operand(rng, bs, pl):
     return ["new", list(bs), assign, gen_build(rng, tuple(bs), assign)]
 
 
-LAZY_UNSUPPORTED = ("view", "reshape", "flatten", "unflatten", "expand", "gather", "masked_select", "squeeze", "transpose")
+# shape ops that still fail on a NonTensorStack (finding C16-i as narrowed on /repo 6457149: flatten / unflatten / expand / squeeze /
+# transpose / masked_select were repaired with the lazy-stack fixes; measured on 200+ single-op histories each, 0 failures)
+LAZY_UNSUPPORTED = ("view", "reshape", "gather")
+
+
+def resolve_target(tgt, bs):
+    """a view / reshape target with its -1 resolved against the number of elements of bs"""
+    tgt = [int(v) for v in tgt]
+    if -1 in tgt:
+        rest = int(np.prod([v for v in tgt if v != -1])) if len(tgt) > 1 else 1
+        n = int(np.prod(bs)) if bs else 1
+        tgt[tgt.index(-1)] = n // rest if rest else 0
+    return tgt
+
+
+def merges_or_splits(new, old):
+    """is [new] the shape [old] with one run of adjacent dims merged into one, or one dim split into a run (or the same shape)"""
+    def merged(a, b):      # a = b with b[i:j+1] merged
+        for i in range(len(b) + 1):
+            for j in range(i, len(b)):
+                if list(a) == list(b[:i]) + [int(np.prod(b[i:j + 1]))] + list(b[j + 1:]):
+                    return True
+        return False
+    return list(new) == list(old) or merged(new, old) or merged(old, new)
 
 
 def has_seq_payload(st):
@@ -477,7 +500,9 @@ def in_defect_region(op, st, kind, depth):
         e = call(lambda: st.td.get("s"))
         f["write_to_aliased_members"] = bool(e[0] == "ok" and has_alias(e[1]))
     if k in LAZY_UNSUPPORTED and kind == "stack":
-        f["shape_op_on_stack"] = True
+        # view / reshape: only targets that neither merge nor split dims of the batch size (the others reorganise the lazy stack
+        # and are right); decided here from the proxy shape, independently of utils._check_is_flatten
+        f["shape_op_on_stack"] = bool(k == "gather" or not merges_or_splits(resolve_target(op[1], list(st.pos.shape)), list(st.pos.shape)))
     # (memmap round trips of list / tuple payloads were finding C16-j: repaired by e2949e0)
     return {a: b for a, b in f.items() if b}
 
@@ -1257,6 +1282,26 @@ def probe_entry(st, rng, trace_out):
             if list(y[1].batch_size) != shape or got != want:
                 fails.append(("from_nontensordata:content", {"entry": r0, "batch_size": list(y[1].batch_size), "got": got and got[:12]}))
             trace_out.append(("from_nontensordata", sx([Sym("from-ntd"), rep_sx(r0)]), rep(y[1], pl)))
+    # NonTensorStack.from_list(nested list).tolist() is the nested list; to_dict of a tensordict holding it gives the payloads
+    cids = expected_flat(st)
+    if not any(pl.pool[c][0] == "list" for c in set(cids)):        # a list payload IS a nesting level for from_list
+        nested_c = nest(list(cids), shape)
+
+        def conv(x):
+            return [conv(y_) for y_ in x] if isinstance(x, list) else pl.get(x)
+        y = call(lambda: NonTensorStack.from_list(conv(nested_c)))
+        if y[0] != "ok":
+            fails.append(("from_list:raises", {"exception": y[1], "nested": nested_c}))
+        else:
+            tl = call(lambda: flatten_to(y[1].tolist(), shape))
+            got = [json.dumps(canon(o)) for o in tl[1]] if tl[0] == "ok" and tl[1] is not None else None
+            if list(y[1].batch_size) != shape or got != want:
+                fails.append(("from_list:content", {"nested": nested_c, "batch_size": list(y[1].batch_size), "got": got and got[:12]}))
+            dd = call(lambda: TensorDict({"s": y[1]}, batch_size=shape).to_dict())
+            f2 = flatten_to(dd[1].get("s"), shape) if dd[0] == "ok" and isinstance(dd[1], dict) else None
+            if f2 is None or [json.dumps(canon(o)) for o in f2] != want:
+                fails.append(("from_list:to_dict", {"nested": nested_c, "got": repr(dd[1])[:200]}))
+            trace_out.append(("from_list", sx([Sym("from-list"), nested_c]), rep(y[1], pl)))
     # _set_item
     descs = gen_basic_idx(rng, shape)
     idx = py_index(descs, False)
@@ -1413,6 +1458,26 @@ def norm_dim(d, rank_after):
     return d if d >= 0 else d + rank_after
 
 
+def sop_sx(op):
+    """the shape operation as the user spelled it (negative dims, -1 in targets), for the model's `shape-op`"""
+    k = op[0]
+    if k in ("view", "reshape", "expand", "repeat", "permute"):
+        return [Sym(k), [int(v) for v in op[1]]]
+    if k == "transpose":
+        return [Sym("transpose"), int(op[1]), int(op[2])]
+    if k == "squeeze":
+        return Sym("squeeze-all") if op[1] is None else [Sym("squeeze"), int(op[1])]
+    if k == "unsqueeze":
+        return [Sym("unsqueeze"), int(op[1])]
+    if k == "flatten":
+        return [Sym("flatten"), int(op[1]), int(op[2])]
+    if k == "unflatten":
+        return [Sym("unflatten"), int(op[1]), [int(v) for v in op[2]]]
+    if k == "repeat_interleave":
+        return [Sym("repint"), int(op[1]), int(op[2])]
+    return None
+
+
 def model_lines_for(t, case):
     """protocol lines for one trace step: list of (label, line, expected observation, kind of comparison)"""
     out = []
@@ -1429,9 +1494,22 @@ def model_lines_for(t, case):
             out.append(("denote", sx([Sym("denote-all"), rep_sx(after)]), obs["want"], "denote"))
             out.append(("tolist", sx([Sym("tolist"), rep_sx(after)]), obs["tolist"], "tree"))
             out.append(("get_non_tensor", sx([Sym("get-non-tensor"), rep_sx(after), NONE_ID]), obs["gnt"], "got"))
+    so = sop_sx(op)
+    if (so is not None and ok_before and before[0] == "K" and k in ("view", "reshape") and t["container"] == "TensorDict"
+            and 0 not in t["bs_before"] and t.get("want_numel") != 0 and t["status"] in ("ok", "raise") and not case.get("pool")):
+        # view / reshape of a NonTensorStack (finding C16-i inside the model): raises / payloads lost / self
+        if t["status"] == "raise":
+            out.append(("shape-op-on-stack", sx([Sym("shape-op"), so, rep_sx(before)]), "raised", "sres"))
+        elif after is not None and after[0] == "?":
+            out.append(("shape-op-on-stack", sx([Sym("shape-op"), so, rep_sx(before)]), ["lost", list(t["obs"]["shape"])], "sres"))
+        elif after is not None and rep_ok(after):
+            out.append(("shape-op-on-stack", sx([Sym("shape-op"), so, rep_sx(before)]), after, "sres"))
     if not (ok_before and plain) or t["status"] != "ok" or after is None or not rep_ok(after) or in_region:
         return out
     r_before = len(t["bs_before"])
+    if so is not None and before[0] == "S":
+        # a NonTensorData: the op as spelled goes through C02's model of the code on a tensordict without entries
+        out.append(("shape-op", sx([Sym("shape-op"), so, rep_sx(before)]), after, "sres"))
     if k == "index":
         descs = expand_ellipsis(op[1], r_before)
         if descs:
@@ -1566,6 +1644,26 @@ def check_model(R, all_traces):
             R.count("model:set_at-with-None")
         if label in ("update-inplace", "update_at_()") and t["before"][0] == "K" and not fully_expanded(t["before"]):
             R.count("model:update-inplace-partly-expanded-stack")
+        if kind == "sres":
+            if status == "ok":
+                got = unsx_rep(val)
+            elif m == "reorganised":
+                # the model says the lazy stack is reorganised (its content is the oracle's business): the call must neither raise
+                # nor lose the payloads
+                R.count("model:shape-op-on-stack:reorganised")
+                if want == "raised" or (isinstance(want, list) and want and want[0] == "lost"):
+                    R.mismatch(label, c, want, "reorganised")
+                continue
+            elif isinstance(m, list) and m and m[0] == "lost":
+                got = ["lost", list(m[1])]
+            else:
+                got = status
+            R.count("model:%s:%s" % (label, t["op"][0]))
+            if label == "shape-op-on-stack":
+                R.count("model:shape-op-on-stack:" + (got if isinstance(got, str) else "lost" if got[0] == "lost" else "self"))
+            if got != want:
+                R.mismatch(label, c, want, got)
+            continue
         if kind == "rep":
             got = unsx_rep(val) if status == "ok" else status
             if got != want:
